@@ -19,6 +19,8 @@
 //! proto.pair   (L checked cfg pkg alt err416 exchanges secure1) -> (L (L wire_h1 wire_h2) ...)
 //!              the history on host A over one HTTP/1.1 connection, on an identical host B over one HTTP/2 connection
 //! proto.answered same input -> (L h1 h2): was every request of the history answered (and the framing intact) on each protocol
+//! proto.server same input and output as proto.pair, but through two complete servers started by `RunConfig::execute` on
+//!              loopback ports (listener, accept loop, TLS + ALPN, connection tasks, graceful shutdown afterwards)
 //! proto.burst  (L checked cfg pkg alt err416 exchanges streams sched) -> (L (L sid wire) ...)
 //!              all requests at once as streams of ONE HTTP/2 connection, one fresh host
 //! proto.burst1 the same burst over as many concurrent HTTP/1.1 (TLS) connections
@@ -279,8 +281,40 @@ fn fail(idx: usize, what: String) -> X {
 trait Io: AsyncRead + AsyncWrite + Unpin + Send {}
 impl<S: AsyncRead + AsyncWrite + Unpin + Send> Io for S {}
 
-/// A loopback pair whose server end is served by `kvarn::handle_connection`.
-async fn connect(desc: Arc<PortDescriptor>) -> Result<tokio::net::TcpStream, String> {
+/// Where a client connects to.
+#[derive(Clone)]
+enum Target {
+    /// a fresh loopback pair whose server end is handed to `kvarn::handle_connection`
+    Pair(Arc<PortDescriptor>),
+    /// a server started by `RunConfig::execute` on this port
+    Port(u16),
+}
+impl From<Arc<PortDescriptor>> for Target {
+    fn from(d: Arc<PortDescriptor>) -> Self {
+        Target::Pair(d)
+    }
+}
+
+async fn connect(target: Target) -> Result<tokio::net::TcpStream, String> {
+    let desc = match target {
+        Target::Pair(desc) => desc,
+        Target::Port(port) => {
+            // the listener binds inside the server's task: a refusal shortly after `execute` means "not yet"
+            let t0 = std::time::Instant::now();
+            loop {
+                match tokio::net::TcpStream::connect(("127.0.0.1", port)).await {
+                    Ok(s) => {
+                        let _ = s.set_nodelay(true);
+                        return Ok(s);
+                    }
+                    Err(e) if e.kind() == std::io::ErrorKind::ConnectionRefused && t0.elapsed() < Duration::from_secs(4) => {
+                        tokio::time::sleep(Duration::from_millis(15)).await;
+                    }
+                    Err(e) => return Err(format!("connect to port {port}: {e}")),
+                }
+            }
+        }
+    };
     let listener = tokio::net::TcpListener::bind("127.0.0.1:0").await.map_err(|e| format!("bind: {e}"))?;
     let addr = listener.local_addr().map_err(|e| format!("addr: {e}"))?;
     let client = tokio::net::TcpStream::connect(addr).await.map_err(|e| format!("connect: {e}"))?;
@@ -291,7 +325,7 @@ async fn connect(desc: Arc<PortDescriptor>) -> Result<tokio::net::TcpStream, Str
     let _ = client.set_nodelay(true);
     Ok(client)
 }
-async fn connect_tls(desc: Arc<PortDescriptor>, cfg: Arc<rustls::ClientConfig>, want_alpn: &[u8]) -> Result<tokio_rustls::client::TlsStream<tokio::net::TcpStream>, String> {
+async fn connect_tls(desc: Target, cfg: Arc<rustls::ClientConfig>, want_alpn: &[u8]) -> Result<tokio_rustls::client::TlsStream<tokio::net::TcpStream>, String> {
     let tcp = connect(desc).await?;
     let name = rustls::pki_types::ServerName::try_from("localhost").unwrap();
     let s = tokio::time::timeout(T, tokio_rustls::TlsConnector::from(cfg).connect(name, tcp))
@@ -309,7 +343,8 @@ struct H1 {
     pending: Vec<u8>,
 }
 impl H1 {
-    async fn open(desc: Arc<PortDescriptor>, secure: bool) -> Result<H1, String> {
+    async fn open(desc: impl Into<Target>, secure: bool) -> Result<H1, String> {
+        let desc = desc.into();
         let s: Box<dyn Io> = if secure { Box::new(connect_tls(desc, tls().client_h1.clone(), b"http/1.1").await?) } else { Box::new(connect(desc).await?) };
         Ok(H1 { s, pending: Vec::new() })
     }
@@ -405,8 +440,8 @@ struct H2 {
     send: h2::client::SendRequest<Bytes>,
 }
 impl H2 {
-    async fn open(desc: Arc<PortDescriptor>) -> Result<H2, String> {
-        let s = connect_tls(desc, tls().client_h2.clone(), b"h2").await?;
+    async fn open(desc: impl Into<Target>) -> Result<H2, String> {
+        let s = connect_tls(desc.into(), tls().client_h2.clone(), b"h2").await?;
         let (send, conn) = tokio::time::timeout(T, h2::client::Builder::new().initial_window_size(1 << 22).handshake::<_, Bytes>(s))
             .await
             .map_err(|_| timed_out("h2 handshake"))?
@@ -547,7 +582,7 @@ fn parse_case(x: &X, n: usize) -> Option<Case> {
     Some(Case { cfg: c[0].clone(), reqs: parse_reqs(&c[1])? })
 }
 
-async fn history_h1(desc: Arc<PortDescriptor>, secure: bool, reqs: &[Req]) -> Result<Vec<Wire>, (usize, String)> {
+async fn history_h1(desc: impl Into<Target>, secure: bool, reqs: &[Req]) -> Result<Vec<Wire>, (usize, String)> {
     let mut h1 = H1::open(desc, secure).await.map_err(|e| (0, format!("h1 open: {e}")))?;
     let mut out = Vec::new();
     for (i, r) in reqs.iter().enumerate() {
@@ -556,7 +591,7 @@ async fn history_h1(desc: Arc<PortDescriptor>, secure: bool, reqs: &[Req]) -> Re
     h1.sentinel().await.map_err(|e| (reqs.len(), format!("h1 framing: {e}")))?;
     Ok(out)
 }
-async fn history_h2(desc: Arc<PortDescriptor>, reqs: &[Req]) -> Result<Vec<Wire>, (usize, String)> {
+async fn history_h2(desc: impl Into<Target>, reqs: &[Req]) -> Result<Vec<Wire>, (usize, String)> {
     let mut h2 = H2::open(desc).await.map_err(|e| (0, format!("h2 open: {e}")))?;
     let mut out = Vec::new();
     for (i, r) in reqs.iter().enumerate() {
@@ -594,6 +629,84 @@ fn pair(x: &X, flags: bool) -> X {
     cleanup(&ba);
     cleanup(&bb);
     out
+}
+
+// -------------------------------------------------------------------------------------------
+// the same through complete servers (`RunConfig::execute`: listener, accept loop, ALPN, connection tasks)
+// -------------------------------------------------------------------------------------------
+static PORT_COUNTER: std::sync::atomic::AtomicU32 = std::sync::atomic::AtomicU32::new(0);
+/// Ports below the ephemeral range, spread by pid (kvarn sets SO_REUSEPORT: a taken port would not fail to bind,
+/// so a port is only used after a connection attempt to it was refused).
+fn next_port() -> u16 {
+    let n = PORT_COUNTER.fetch_add(1, std::sync::atomic::Ordering::Relaxed);
+    (10_000 + ((std::process::id() + 97) % 220) * 100 + 50 + n % 50) as u16
+}
+async fn free_port() -> Option<u16> {
+    for _ in 0..60 {
+        let port = next_port();
+        match tokio::time::timeout(Duration::from_secs(2), tokio::net::TcpStream::connect(("127.0.0.1", port))).await {
+            Ok(Err(e)) if e.kind() == std::io::ErrorKind::ConnectionRefused => return Some(port),
+            _ => {}
+        }
+    }
+    None
+}
+/// the port of this run's server appears in `alt-svc`; the cases are written for port 8443
+fn canon_port(w: &mut Wire, port: u16) {
+    if let Wire::Resp { headers, .. } = w {
+        let mine = format!("h3=\":{port}\";ma=2592000").into_bytes();
+        for (n, v) in headers.iter_mut() {
+            if n == b"alt-svc" && *v == mine {
+                *v = format!("h3=\":{PORT}\";ma=2592000").into_bytes();
+            }
+        }
+    }
+}
+
+/// `Err(None)`: the harness could not run the case (ports, connect) — never a verdict
+async fn server_once(cfg: &X, secure1: bool, reqs: &[Req]) -> Result<X, Option<(usize, String)>> {
+    let (Some(ba), Some(bb)) = (build(cfg), build(cfg)) else { return Ok(X::bad()) };
+    let (Some(pa), Some(pb)) = (free_port().await, free_port().await) else { return Err(None) };
+    let da = if secure1 { PortDescriptor::new(pa, ba.hosts.clone()) } else { PortDescriptor::unsecure(pa, ba.hosts.clone()) };
+    let sa = RunConfig::new().bind(da.ipv4_only()).disable_ctl().execute().await;
+    let sb = RunConfig::new().bind(PortDescriptor::new(pb, bb.hosts.clone()).ipv4_only()).disable_ctl().execute().await;
+    let res = async {
+        let mut w1 = history_h1(Target::Port(pa), secure1, reqs).await.map_err(|(i, e)| if e.contains("open:") { None } else { Some((i, e)) })?;
+        let mut w2 = history_h2(Target::Port(pb), reqs).await.map_err(|(i, e)| if e.contains("open:") { None } else { Some((i, e)) })?;
+        w1.iter_mut().for_each(|w| canon_port(w, pa));
+        w2.iter_mut().for_each(|w| canon_port(w, pb));
+        Ok(X::L(w1.iter().zip(w2.iter()).map(|(a, b)| X::L(vec![x_wire(a), x_wire(b)])).collect()))
+    }
+    .await;
+    sa.shutdown();
+    sb.shutdown();
+    let _ = tokio::time::timeout(Duration::from_secs(5), async {
+        sa.wait().await;
+        sb.wait().await;
+    })
+    .await;
+    cleanup(&ba);
+    cleanup(&bb);
+    res
+}
+
+fn server(x: &X) -> X {
+    let Some(case) = parse_case(x, 7) else { return X::bad() };
+    let Some(secure1) = x.as_l().and_then(|l| l[6].as_bool()) else { return X::bad() };
+    if !case.reqs.iter().all(expressible) {
+        return X::L(vec![X::N(96)]);
+    }
+    rt().block_on(async {
+        for _ in 0..3 {
+            match server_once(&case.cfg, secure1, &case.reqs).await {
+                Ok(x) => return x,
+                Err(Some((i, e))) => return fail(i, e),
+                Err(None) => {}
+            }
+        }
+        // could not be executed (port trouble): counted, not judged
+        X::L(vec![X::N(96), X::b("server could not be started or reached")])
+    })
 }
 
 fn sids(x: &X) -> Option<Vec<u128>> {
@@ -717,6 +830,7 @@ pub fn dispatch(comp: &str, x: &X) -> Option<X> {
         "proto.l4" => l4(x),
         "proto.pair" => pair(x, false),
         "proto.answered" => pair(x, true),
+        "proto.server" => server(x),
         "proto.burst" => burst(x, true),
         "proto.burst1" => burst(x, false),
         "proto.alone" => alone(x, true),
